@@ -62,6 +62,21 @@ class Ctx:
             self.proof_broken.append("translator: " + str(ex)[:300])
             return False
 
+    def fingerprint(self, modelled):
+        """informational: which modelled C functions changed in text since the model was last reviewed"""
+        try:
+            from translate import funchash
+            cur, changed, new = funchash.compare(self.pid, modelled)
+            self.cov["modelled_functions"] = len(cur)
+            self.cov["modelled_functions_changed_since_review"] = changed
+            if new:
+                self.cov["modelled_functions_without_reference"] = new
+            miss = [k for k, h in cur.items() if h == "missing"]
+            if miss:
+                self.notes.append("modelled functions not found in the source (renamed or removed?): " + ", ".join(miss))
+        except Exception as ex:
+            self.notes.append("fingerprint step failed: %s" % ex)
+
     def obligation(self, name, ok, detail=""):
         self.obligations.append((name, bool(ok), detail))
 
@@ -189,6 +204,8 @@ def main(argv):
     mod = importlib.import_module("checks." + a.pid.lower())
     ctx = Ctx(a.pid, a.tier, seed, getattr(mod, "LEVEL", "proof"))
     try:
+        if getattr(mod, "MODELLED_FUNCS", None):
+            ctx.fingerprint(mod.MODELLED_FUNCS)
         if a.replay:
             mod.replay(ctx, json.load(open(a.replay)))
         else:
